@@ -429,6 +429,12 @@ pub fn run(ctx: &Ctx) -> CheckOutput {
                             let d = if alpha.len() > 3 { depth.min(if quick { 5 } else { 7 }) } else { depth };
                             unary_chain::<f64>(e.kind, on, &inner, alpha, d, &mut st, &sink);
                         }
+                        // the coarse scalar (10-bit significand): chain == decomposition is a bit-exact equality at
+                        // any precision, and coincidences between computed quantities become reachable (letters exactly
+                        // representable in the format, so that the leaves are handed the letters themselves)
+                        if on <= 3 && inn <= 2 {
+                            unary_chain::<crate::lo::Lo>(e.kind, on, &inner, &[0.125, 0.75, -3.25], if quick { 5 } else { 7 }, &mut st, &sink);
+                        }
                     }
                     JobOut { stats: st, viols: sink.take(), samples: vec![json!({"explorer":"TREE","scalar":"f64","outer":format!("{:?}({})", e.kind, on),"inner":"every catalogue view over a leaf, window","inner_n":inn,"depth":depth})] }
                 }));
